@@ -4,7 +4,7 @@
 (* of the target), 3 ReadValue;  std: <<ok (0 syntax, 1 ok, 2 range), consumed,*)
 (* w3..w0>> is strconv.ParseFloat on the literal, a second implementation      *)
 (* that must satisfy the same relation.                                        *)
-EXTENDS Floats, TraceCore
+EXTENDS FloatScan, TraceCore
 G == INSTANCE JSONGrammar WITH GMaxDepth <- 3
 VARIABLE l
 
@@ -28,6 +28,15 @@ Clauses(e) ==
                "C04", "strconv_differs_from_spec")
         \cup F(e.std[2] = en - i0, "INFRA", "harness_literal_prefix_differs_from_spec")
         \cup F(e.unch = 1, "C16", "input_modified") \cup F(e.panics = 0, "C10", "panic")
+        \* conformance of the implementation-shaped scanner model (hooks H4 and H1): notes, never verdicts
+        \cup (IF "scan" \notin DOMAIN e \/ Len(e.scan) < 6 THEN {} ELSE
+              LET k == Len(e.scan)
+                  f == Scan(SubSeq(s, i0, en - 1))
+              IN F(/\ e.scan[k] = 1 /\ e.scan[k - 1] = en - i0
+                   /\ StripLZ(SubSeq(e.scan, 1, k - 5)) = f.mant /\ e.scan[k - 4] = f.exp
+                   /\ (e.scan[k - 3] = 1) = f.neg /\ (e.scan[k - 2] = 1) = f.trunc,
+                   "NOTE", "readFloat_differs_from_FloatScan_model")
+                 \cup F(e.tier \in Tiers(f), "NOTE", "conversion_path_differs_from_FloatScan_model"))
 
 TraceInit == l = 1
 TraceNext == /\ l <= Len(Trace)
